@@ -422,6 +422,25 @@ func (e *Engine) instrWrites(fn *ssa.Function, in ssa.Instruction, ws map[string
 			}
 			return
 		}
+		// the address of a (non-escaping) struct field handed to a callee: the callee may write the field through it.
+		// (Fields whose address goes only to external or trusted callees are kept in their field region, so the
+		// callee's `modifies *v` - a cell region in its own summary - has to be mapped back to the field here.)
+		for _, a := range c.Args {
+			if mi, ok := a.(*ssa.MakeInterface); ok {
+				a = mi.X // the address boxed into an interface{} parameter (json.Unmarshal(data, &x.f))
+			}
+			if fa, ok := a.(*ssa.FieldAddr); ok {
+				pt := deref(fa.X.Type())
+				if st, ok := pt.Underlying().(*types.Struct); ok && !isStruct(st.Field(fa.Field).Type()) {
+					if _, esc := e.escapingField(pt, fa.Field); !esc {
+						r := tmp.fieldRegion(pt, fa.Field)
+						idx := fa.Field
+						e.regMaker(r.Key, func(g *Gen) *Region { return g.fieldRegion(pt, idx) })
+						addWS(ws, r.Key, !freshSource(fa.X))
+					}
+				}
+			}
+		}
 		var callees []*ssa.Function
 		if c.IsInvoke() {
 			if e.localInterface(c.Value.Type()) {
